@@ -90,7 +90,7 @@ def gen_net(rng, cls="hg", max_nodes=6, max_edges=6, labels=None, edge_ids=None,
 # ----------------------------------------------------------------------------- running one case on the implementation
 
 FUNCS = ["subhypergraph", "dual", "dual2", "lshift", "complement", "cut_to_order", "k_skeleton", "from_max_simplices",
-         "lch", "relabel", "cleanup", "copy"]
+         "maximal", "lch", "relabel", "cleanup", "copy"]
 FLAGS = ["isolates", "singletons", "multiedges", "connected", "relabel"]
 
 
@@ -119,6 +119,8 @@ def call(req, H, H2=None):
         return xgi.k_skeleton(H, req["order"])
     if f == "from_max_simplices":
         return xgi.from_max_simplices(H)
+    if f == "maximal":
+        return list(H.edges.maximal(strict=req["strict"]))
     if f == "lch":
         return xgi.largest_connected_hypergraph(H)
     if f == "relabel":
@@ -153,6 +155,8 @@ def run_impl(req):
     out = MH.outcome_of(exc, any(issubclass(x.category, UserWarning) for x in w))
     if exc is not None and not in_place(req):
         return req, {"out": out}, exc
+    if req["f"] == "maximal":
+        return req, {"out": out, "ids": [enc_id(i) for i in R]}, exc
     snap = MH.snapshot(H if exc is not None else R, out)
     return req, snap, exc
 
@@ -164,6 +168,8 @@ FIELDS = ["out", "nodes", "edges", "mem", "memb", "nattr", "eattr", "nattrK", "e
 
 def norm(f, snap):
     """what is compared: everything, except orders that come from Python set iteration"""
+    if f == "maximal" and "ids" in snap:
+        return {"out": snap["out"], "ids": snap["ids"]}
     if "nodes" not in snap:
         return {"out": snap["out"]}
     s = {k: snap[k] for k in FIELDS}
@@ -253,6 +259,18 @@ def pred(req, snap, exc):
 
     def bad(c, d=""):
         fails.append((c, d))
+
+    if f == "maximal" and "ids" in snap:
+        # EdgeView.maximal on any hypergraph (empty edges included): the edges no other edge strictly contains
+        # (strict: no other edge contains at all, so repeated edges never qualify), as a view in edge order
+        if req["strict"]:
+            want = [e for e in eo if not any(j != e and mem[e] <= mem[j] for j in eo)]
+        else:
+            want = [e for e in eo if not any(mem[e] < mem[j] for j in eo)]
+        got = [dec_id(i) for i in snap["ids"]]
+        if got != want:
+            bad("maximal-edges", f"strict={req['strict']}: got {got!r} want {want!r}")
+        return fails
 
     if "nodes" not in snap or snap["out"].startswith("err"):
         # --- calls that raised: decide whether raising is what the definition allows
@@ -535,7 +553,10 @@ def cleanup_pred(req, nodes, mem, eo, ne, ee, net, rn, rmem, reo, rne, ree, rnet
 
 def dec_label(v):
     if isinstance(v, dict) and "$o" in v:
-        return dec_id(json.loads(v["$o"]))
+        t = v["$o"]
+        if t.startswith("(") and t.endswith(")"):       # a tuple ID, written "(a, b)" by core.enc_val
+            return dec_id(json.loads("[" + t[1:-1] + "]"))
+        return dec_id(json.loads(t))
     return v
 
 
@@ -572,6 +593,8 @@ def gen_case(rng, f=None, small=False):
             req["H2"] = gen_net(rng, "hg", max_nodes=mx, max_edges=mx, labels=lambda k: pool[:k], edge_ids=lambda m: epool[:m])
     elif f in ("cut_to_order", "k_skeleton"):
         req["order"] = rng.randint(-1, 4)
+    elif f == "maximal":
+        req["strict"] = rng.random() < 0.4
     elif f == "relabel":
         req["label_attribute"] = rng.choice(["label", "old", "w"])
         req["in_place"] = rng.random() < 0.5
@@ -599,6 +622,12 @@ AWKWARD = [
     {"nodes": ["a", "b", 1], "edges": [[5, ["a", 1]], ["x", ["a", 1]], [2, ["b"]]]},  # dup class with unorderable IDs
     {"nodes": [1, 2, 3, 4, 5, 6], "edges": [[0, [1, 2]], [1, [2, 3]], [2, [4, 5]], [3, [5, 6]], [4, [6]]]},
     {"nodes": [0, 1, 2], "edges": [[0, [0, 1, 2]], [1, [0, 1]], [2, [0, 1, 2]], [3, [2]]]},
+    {"nodes": [1], "edges": [[0, []], [1, []]]},                                        # only empty edges: all maximal
+    # classes of repeated edges with sortable IDs of every kind (tuples, strings, ints), attributes on each member
+    {"nodes": [1, 2, 3], "edges": [[[1, 2], [1, 2]], [[0, 5], [2, 1]], ["b", [2, 3]], ["a", [3, 2]], [7, [1]], [3, [1]]],
+     "eattr": [[[1, 2], [["w", 1]]], [[0, 5], [["w", 2], ["m", 0]]], ["b", [["color", "r"]]], ["a", [["color", "g"]]],
+               [7, [["w", 7]]], [3, [["w", 3]]]]},
+    {"nodes": [1, 2], "edges": [[[1, "a"], [1, 2]], [["b", 0], [2, 1]]]},               # mixed tuples: unsortable class
 ]
 
 
@@ -613,6 +642,8 @@ def small_scope_cases():
         for V in variants:
             for f in ("dual", "dual2", "complement", "lch", "copy"):
                 yield {"f": f, "H": V}
+            for st in (False, True):
+                yield {"f": "maximal", "H": V, "strict": st}
             for o in (-1, 0, 1, 2, 3):
                 yield {"f": "cut_to_order", "H": V, "order": o}
             for ns in (None, [0, 1], [1, 2, 3]):
@@ -789,7 +820,7 @@ def evaluate_other(ctx, reqs):
 
 SITE = {"subhypergraph": "subhypergraph", "dual": "Hypergraph.dual", "dual2": "Hypergraph.dual", "lshift": "Hypergraph.__lshift__",
         "complement": "complement", "cut_to_order": "cut_to_order", "k_skeleton": "k_skeleton",
-        "from_max_simplices": "from_max_simplices", "lch": "largest_connected_hypergraph",
+        "from_max_simplices": "from_max_simplices", "maximal": "EdgeView.maximal", "lch": "largest_connected_hypergraph",
         "relabel": "convert_labels_to_integers", "cleanup": "Hypergraph.cleanup", "copy": "Hypergraph.copy"}
 
 
@@ -872,6 +903,8 @@ def run(ctx):
         reqs += list(all_flag_cases(H))
         for f in ("dual", "dual2", "complement", "lch", "copy"):
             reqs.append({"f": f, "H": H})
+        for st in (False, True):
+            reqs.append({"f": "maximal", "H": H, "strict": st})
         for o in (-1, 0, 1, 2):
             reqs.append({"f": "cut_to_order", "H": H, "order": o})
         reqs.append({"f": "relabel", "H": H, "label_attribute": "label", "in_place": False})
@@ -885,7 +918,7 @@ def run(ctx):
         reqs += list(small_scope_cases())
         ctx.exhaustive = True
         ctx.extra["exhaustive_scope"] = ("correspondence and predicate on every hypergraph with <=3 distinct edges over 4 nodes "
-                                         "(plus a multi-edge variant) x {dual, dual2, complement, lch, copy, cut_to_order -1..3, "
+                                         "(plus a multi-edge variant) x {dual, dual2, complement, lch, copy, maximal strict/non-strict, cut_to_order -1..3, "
                                          "subhypergraph 3x2 selections, relabel, all 32 cleanup flag settings}; simplicial "
                                          "complexes generated by <=2 simplices x {from_max_simplices, k_skeleton 0..2}")
     done, results = evaluate(ctx, reqs)
@@ -902,7 +935,8 @@ def run(ctx):
     fn.conclude(ctx, ok, dis, search)
     ctx.rule = ("networks from harness/fn.py generators (any int/str/mixed labels, isolated nodes, singletons, multi-edges, "
                 "empty edges, node/edge/network attributes, sometimes frozen) x function x arguments (node/edge selections "
-                "cutting through edges and naming foreign IDs, orders -1..4, all 2^5 cleanup flag settings x in_place, a "
+                "cutting through edges and naming foreign IDs, orders -1..4, EdgeView.maximal strict/non-strict (empty and "
+                "repeated edges included), all 2^5 cleanup flag settings x in_place, a "
                 "second network with overlapping nodes and edge IDs for <<), plus a fixed list of awkward networks; "
                 "non-trivial = distinct (request, result) with an edge of >=2 members")
     ctx.assumptions = ["IDs restricted to int/str/tuple-of-atoms; bool/float IDs outside the model",
@@ -910,9 +944,11 @@ def run(ctx):
                        "SimplicialComplex.copy on a closed complex is modelled as an equal unfrozen network",
                        "from_max_simplices on a complex whose first maximal simplex lists a string before a non-string label "
                        "is rejected by add_edges_from's format sniffing; treated as outside the function's domain",
-                       "the model describes cleanup / largest_connected_hypergraph with proposed_fixes/C19-cleanup-null-network.diff "
-                       "applied; on the unchanged tree the ValueError on a null network is reported as the known finding and "
-                       "largest_connected_hypergraph(null network) raising is accepted",
+                       "cleanup / largest_connected_hypergraph are modelled as repaired in /repo 4b127bb (the null network is left "
+                       "alone); largest_connected_hypergraph(null network) raising ValueError (older trees) is still accepted",
+                       "edge IDs of one kind (int, str, tuple of ints, tuple of strs) are ordered as Python does; every other class of "
+                       "repeated-edge IDs counts as unsortable in the shared model (mixed tuples that Python can still order are not generated)",
+                       "EdgeView.maximal is driven directly on hypergraphs (a SimplicialComplex cannot hold an empty simplex)",
                        "SimplicialComplex.cleanup and DiHypergraph.cleanup are checked by the predicate only (no model)"]
     return finish(ctx, trusted_base=TRUSTED_COMMON + [
         "harness/props/c19.py: brute-force definitions (itertools, union-find) used as the predicate; network builder/encoder",
